@@ -90,6 +90,23 @@ def check_case(args):
         bad('.set did not assign on a matching node')
     elif dict(b.__arguments__) != before[id(b)]:
       bad('.set changed a non-matching node')
+  # .set assigns the very object passed in, also where an equal value is already stored
+  r2b, _ = build(shape, assign)
+  m2b = [b for b in reachable_buildables(r2b) if matches(b, target, msub, btype)]
+  leafy = [b for b in m2b if not isinstance(b.__arguments__.get('p1'), (config_lib.Buildable, list, dict))]
+  for j, b in enumerate(leafy):      # only slots that hold no sub-structure: nothing drops out
+    b.p1 = [1, 'x'] if j % 2 == 0 else 1
+  for new in ([1, 'x'], 1.0):
+    selectors.select(r2b, target, match_subclasses=msub, buildable_type=btype).set(p1=new)
+    still = {id(x) for x in reachable_buildables(r2b)}
+    for b in leafy:
+      if id(b) not in still:
+        continue                     # was inside a subtree that another assignment replaced
+      got_v = b.__arguments__.get('p1')
+      if got_v is not new:
+        bad(f'.set(p1={new!r}) left {got_v!r} (type {type(got_v).__name__}) on a matching node that '
+            'already held an equal value: the node does not hold the value passed in')
+        break
   # .replace substitutes at every reference, other Buildables keep identity / arguments / place
   r3, o3 = build(shape, assign)
   nodes3 = reachable_buildables(r3)
